@@ -167,7 +167,8 @@ func AppendUnzstdBytes(dst, src []byte) ([]byte, error) {
 // normalizes compression level into [0..7], so it could be used as an index
 // in *PoolMap.
 func normalizeZstdCompressLevel(level int) int {
-	if level < CompressZstdSpeedNotSet || level > CompressZstdBestCompression {
+	// CompressZstdSpeedNotSet isn't an encoder level on its own: it selects the default one.
+	if level <= CompressZstdSpeedNotSet || level > CompressZstdBestCompression {
 		level = CompressZstdDefault
 	}
 	return level
